@@ -4,20 +4,50 @@
   `Gen/ExtraHash.lean` is re-generated from the Python source on every run (tools/translate/gen_hash.py). Each theorem states that
   the function the translator produced from the CURRENT source is, for all inputs, the hand-written model function that the property
   theorems are about. A change to one of these Python functions changes the generated definition and breaks a theorem here statically.
+
+  The proofs only mention the TOP-LEVEL generated functions (loops are translated in place, as `List.foldl` / `List.foldlM` over a
+  `fun`), and they relate a loop to the model through a simulation lemma (`foldlM_range'_sim0`) whose step function is taken from the
+  goal by unification.  So they do not depend on the names of local variables, on the order of independent statements, on how a
+  loop body is outlined, on whether a `range` starts at 0 or 1 (`range(0, n)` with `i + 1` / `range(1, n + 1)` with `i`), on whether
+  a list is built by a loop of `append`s or by a comprehension, or on the spelling `x[o : o + L]` / `x[L * k : L * (k + 1)]` of a
+  slice.  Where a refactoring really changes the loop state (the previous block of `expand_message_xmd` re-read from the list or
+  carried in a local) both invariants are given (`first | … | …`).  Every step is a `simp only` / `omega` / `rfl` on small terms:
+  when the Python really changes the proofs fail within seconds.
 -/
 import PyEcc.Gen.ExtraHash
 
 namespace PyEcc.Tie
 open PyEcc PyEcc.Gen.Consts
+set_option linter.unusedSimpArgs false
 
-/-! ### generic loop lemmas: "fold over a range" = "explicit counter loop" -/
+/-! ### generic loop lemmas -/
+
+/-- `for x in l: acc.append(g x)` (any step function that appends `g x`) builds `acc ++ l.map g`. -/
+theorem foldl_append_of_step {α β : Type} (f : List β → α → List β) (g : α → β) (hf : ∀ u x, f u x = u ++ [g x])
+    (l : List α) (u : List β) : List.foldl f u l = u ++ l.map g := by
+  induction l generalizing u with
+  | nil => simp
+  | cons a l ih => simp [hf, ih]
 
 /-- `for x in l: acc.append(f x)` builds `acc ++ l.map f`. -/
 theorem foldl_append_singleton {α β : Type} (f : α → β) (l : List α) (acc : List β) :
-    List.foldl (fun acc x => acc ++ [f x]) acc l = acc ++ l.map f := by
-  induction l generalizing acc with
+    List.foldl (fun acc x => acc ++ [f x]) acc l = acc ++ l.map f :=
+  foldl_append_of_step _ f (fun _ _ => rfl) l acc
+
+/-- the same for a loop body in the exception monad that never raises. -/
+theorem foldlM_append_of_step {α β : Type} (f : List β → α → Except PyErr (List β)) (g : α → β)
+    (hf : ∀ u x, f u x = pure (u ++ [g x])) (l : List α) (u : List β) :
+    List.foldlM f u l = pure (u ++ l.map g) := by
+  induction l generalizing u with
   | nil => simp
-  | cons a l ih => simp [ih]
+  | cons a l ih => simp [List.foldlM_cons, hf, ih]
+
+/-- a comprehension `[f x for x in l]` whose element expression never raises is `l.map g`. -/
+theorem mapM_of_step {α β : Type} (f : α → Except PyErr β) (g : α → β) (hf : ∀ x, f x = pure (g x)) (l : List α) :
+    List.mapM f l = pure (l.map g) := by
+  induction l with
+  | nil => rfl
+  | cons a l ih => simp [List.mapM_cons, hf, ih]
 
 /-- a monadic fold whose body never raises is the pure fold. -/
 theorem foldlM_ok {α σ : Type} (f : σ → α → σ) (l : List α) (s : σ) :
@@ -25,6 +55,57 @@ theorem foldlM_ok {α σ : Type} (f : σ → α → σ) (l : List α) (s : σ) :
   induction l generalizing s with
   | nil => rfl
   | cons a l ih => simp [List.foldlM_cons, ih]
+
+/-- SIMULATION of a `for` loop over consecutive counters `a, a+1, …` (a fold with step `f` on a state `σ`) by a counter loop `g`
+    ("`k` iterations to go, counter `i`, state `τ`", the shape of the model's loops): if the states are related by `R` (which may
+    depend on the iteration number `j`), each step either fails on both sides with the same exception or leads to related states,
+    and at the end `g` returns `out` of the fold's state, then the fold (projected by `out`) is the counter loop.  The two counters
+    may start at different values (`a` for the fold, `i` for `g`). -/
+theorem foldlM_range'_sim {σ τ ρ : Type} (f : σ → Nat → Except PyErr σ) (g : Nat → Nat → τ → Except PyErr ρ)
+    (out : σ → ρ) (R : Nat → σ → τ → Prop) (a i : Nat)
+    (h0 : ∀ j s t, R j s t → g 0 (i + j) t = .ok (out s))
+    (hs : ∀ k j s t, R j s t →
+        (∃ e, f s (a + j) = .error e ∧ g (k + 1) (i + j) t = .error e) ∨
+        (∃ s' t', f s (a + j) = .ok s' ∧ g (k + 1) (i + j) t = g k (i + (j + 1)) t' ∧ R (j + 1) s' t')) :
+    ∀ k j s t, R j s t → out <$> List.foldlM f s (List.range' (a + j) k) = g k (i + j) t := by
+  intro k
+  induction k with
+  | zero => intro j s t h; rw [h0 j s t h]; rfl
+  | succ k ih =>
+    intro j s t h
+    rw [List.range'_succ, List.foldlM_cons]
+    rcases hs k j s t h with ⟨e, h1, h2⟩ | ⟨s', t', h1, h2, h3⟩
+    · rw [h1, h2]; rfl
+    · rw [h1, h2, ← ih (j + 1) s' t' h3]; rfl
+
+/-- `foldlM_range'_sim` from the first iteration on (the form that unifies with a goal). -/
+theorem foldlM_range'_sim0 {σ τ ρ : Type} (f : σ → Nat → Except PyErr σ) (g : Nat → Nat → τ → Except PyErr ρ)
+    (out : σ → ρ) (R : Nat → σ → τ → Prop) (a i : Nat)
+    (h0 : ∀ j s t, R j s t → g 0 (i + j) t = .ok (out s))
+    (hs : ∀ k j s t, R j s t →
+        (∃ e, f s (a + j) = .error e ∧ g (k + 1) (i + j) t = .error e) ∨
+        (∃ s' t', f s (a + j) = .ok s' ∧ g (k + 1) (i + j) t = g k (i + (j + 1)) t' ∧ R (j + 1) s' t'))
+    (k : Nat) (s : σ) (t : τ) (h : R 0 s t) : out <$> List.foldlM f s (List.range' a k) = g k i t :=
+  foldlM_range'_sim f g out R a i h0 hs k 0 s t h
+
+/-- two computations that agree up to a projection `out`, followed by continuations that agree up to `out`. -/
+theorem bind_sim {σ ρ β : Type} (x : Except PyErr σ) (y : Except PyErr ρ) (out : σ → ρ)
+    (K : σ → Except PyErr β) (K' : ρ → Except PyErr β)
+    (hxy : out <$> x = y) (hK : ∀ s, K s = K' (out s)) : x >>= K = y >>= K' := by
+  subst hxy
+  cases x with
+  | error e => rfl
+  | ok s => exact hK s
+
+theorem throw_bind_eq {α β : Type} (e : PyErr) (K K' : α → Except PyErr β) :
+    ((throw e : Except PyErr α) >>= K) = ((throw e : Except PyErr α) >>= K') := rfl
+
+/-- strip the common prefix of two `do` blocks: an `if` with the same condition on both sides, a bind of the same action on both
+    sides (fails at once, leaving the goal, where the two sides start differently) -/
+macro "tie_peel" : tactic => `(tactic| repeat' (first
+  | (exact throw_bind_eq _ _ _)
+  | (refine ite_congr rfl (fun _ => ?_) (fun _ => ?_))
+  | (refine bind_congr (fun _ => ?_))))
 
 /-! ### `py_ecc/bls/hash.py` -/
 
@@ -57,68 +138,74 @@ theorem xor_eq (a b : Bytes) : Gen.ExtraHash.xor a b = xorBytes a b := by
   unfold Gen.ExtraHash.xor xorBytes
   with_reducible rfl
 
-/-- the `for i in range(0, n)` loop of `hkdf_expand`, started at counter `i` with `n` iterations to go: the first
-    component of the fold's state is what the model's counter loop returns. -/
-theorem hkdf_expand_loop (H : HashFn) (prk info : Bytes) (n i : Nat) (okm previous : Bytes) :
-    Prod.fst <$> List.foldlM (Gen.ExtraHash.hkdf_expand_loop0 info prk H) (okm, previous) (List.range' i n)
-      = hkdfExpandLoop H prk info n i previous okm := by
-  induction n generalizing i okm previous with
-  | zero => rfl
-  | succ n ih =>
-    rw [List.range'_succ, List.foldlM_cons, hkdfExpandLoop]
-    unfold Gen.ExtraHash.hkdf_expand_loop0
-    by_cases h : i + 1 < 256
-    · have h' : ¬ (i + 1 > 255) := by omega
-      simp only [h, h', if_true, if_false]
-      exact ih (i + 1) _ _
-    · have h' : i + 1 > 255 := by omega
-      simp only [h, h', if_true, if_false]
-      rfl
-
-/-- `hkdf_expand(prk, info, length)` as translated from the source (`n = math.ceil(length / 32)` as `ceilDiv`, the `range(0, n)`
-    loop as a fold carrying `(okm, previous)`, `bytes([i + 1])` raising ValueError from 256 on, the final `okm[:length]`) is the
-    model's `hkdfExpand`. -/
+/-- `hkdf_expand(prk, info, length)` as translated from the source (`n = math.ceil(length / 32)` as `ceilDiv`, the loop over the
+    block counter as a fold carrying the previous block and `okm`, `bytes([counter])` raising ValueError from 256 on, the final
+    `okm[:length]`) is the model's `hkdfExpand`.
+    The loop may count `i = 0, …, n-1` and use `i + 1`, or count `1, …, n` (the simulation lemma takes both start values from the
+    goal); the state is (previous block, okm), the order of first assignment in the loop body. -/
 theorem hkdf_expand_eq (H : HashFn) (prk info : Bytes) (length : Nat) :
     Gen.ExtraHash.hkdf_expand prk info length H = hkdfExpand H prk info length := by
   unfold Gen.ExtraHash.hkdf_expand hkdfExpand
-  simp only [← hkdf_expand_loop, List.range_eq_range']
-  generalize List.foldlM (m := Except PyErr) _ _ _ = r
-  cases r <;> rfl
-
-/-- the `for i in range(2, ell + 1)` loop of `expand_message_xmd`, started at counter `i ≥ 2` with `k` iterations to go, on a
-    list `bs` of `i - 1` blocks: `b[i - 2]` is always in range (so the IndexError branch of the translation is dead and the
-    model's totalised `getD` is never used), and the fold is the model's counter loop. -/
-theorem xmd_loop (H : HashFn) (b0 dstPrime : Bytes) (k i : Nat) (bs : List Bytes) (hlen : bs.length + 1 = i)
-    (hi2 : 2 ≤ i) :
-    List.foldlM (Gen.ExtraHash.expand_message_xmd_loop0 H dstPrime b0) bs (List.range' i k)
-      = xmdLoop H b0 dstPrime k i bs := by
-  induction k generalizing i bs with
-  | zero => rfl
-  | succ k ih =>
-    rw [List.range'_succ, List.foldlM_cons, xmdLoop]
-    unfold Gen.ExtraHash.expand_message_xmd_loop0
-    have hi : i - 2 < bs.length := by omega
-    rw [List.getElem?_eq_getElem hi]
-    simp only [Option.getD_some]
-    cases hib : PyEcc.i2osp i 1 with
-    | error e => rfl
-    | ok ib =>
-      exact ih (i + 1) _ (by simp [hlen]) (by omega)
+  simp only [List.range_eq_range', Nat.add_sub_cancel]
+  refine bind_sim _ _ Prod.snd _ _ ?_ (fun _ => rfl)
+  refine foldlM_range'_sim0 _ (fun k i (t : Bytes × Bytes) => hkdfExpandLoop H prk info k i t.1 t.2) Prod.snd
+    (fun _ s t => s = t) _ _ ?_ ?_ _ _ _ rfl
+  · intro j s t h; subst h; rfl
+  · intro k j s t h; subst h
+    simp only [hkdfExpandLoop, Nat.zero_add, Nat.add_comm 1 j]
+    by_cases hlt : j + 1 < 256
+    · have h' : ¬ (j + 1 > 255) := by omega
+      simp only [hlt, h', if_true, if_false]
+      exact Or.inr ⟨_, _, rfl, rfl, rfl⟩
+    · have h' : j + 1 > 255 := by omega
+      simp only [hlt, h', if_true, if_false]
+      exact Or.inl ⟨_, rfl, rfl⟩
 
 /-- `expand_message_xmd(msg, DST, len_in_bytes, hash_function)` as translated from the source (the two ValueError guards, `ell` as
-    `ceilDiv`, `DST_prime`, `Z_pad`, `b_0`, `b = [b_1]`, the `range(2, ell + 1)` loop appending
-    `H(xor(b_0, b[i - 2]) + i2osp(i, 1) + DST_prime)`, `b"".join(b)[:len_in_bytes]`) is the model's `expandMessageXmd`. -/
+    `ceilDiv`, `DST_prime`, `Z_pad`, `b_0`, `b_1`, the `range(2, ell + 1)` loop appending
+    `H(xor(b_0, <previous block>) + i2osp(i, 1) + DST_prime)`, `b"".join(..)[:len_in_bytes]`) is the model's `expandMessageXmd`.
+    The previous block may be re-read from the list (`b[i - 2]`: always in range, so the IndexError branch of the translation is
+    dead and the model's totalised `getD` is never used) or carried in a local of its own (which then always holds the last entry
+    of the list). -/
 theorem expand_message_xmd_eq (H : HashFn) (msg dst : Bytes) (len : Nat) :
     Gen.ExtraHash.expand_message_xmd msg dst len H = expandMessageXmd H msg dst len := by
   unfold Gen.ExtraHash.expand_message_xmd expandMessageXmd
-  simp only [xmd_loop _ _ _ _ 2 [_] rfl (Nat.le_refl 2)]
+  simp only []
+  tie_peel
+  first
+  | -- the list of blocks is the loop state and the previous block is re-read as `b[i - 2]`
+    refine bind_sim _ _ id _ _ ?_ (fun _ => rfl)
+    refine foldlM_range'_sim0 _ (xmdLoop H _ _) id (fun j s t => s = t ∧ t.length = j + 1) _ _ ?_ ?_ _ _ _ ⟨rfl, rfl⟩
+    · intro j s t h; obtain ⟨rfl, _⟩ := h; rfl
+    · intro k j s t h; obtain ⟨rfl, hl⟩ := h
+      have hj : 2 + j - 2 < s.length := by omega
+      simp only [xmdLoop, List.getElem?_eq_getElem hj, Option.getD_some]
+      cases i2osp (2 + j) 1 with
+      | error e => exact Or.inl ⟨_, rfl, rfl⟩
+      | ok ib => exact Or.inr ⟨_, _, rfl, rfl, rfl, by simp [hl]⟩
+  | -- the loop state is (previous block, list of blocks)
+    refine bind_sim _ _ Prod.snd _ _ ?_ (fun _ => rfl)
+    refine foldlM_range'_sim0 _ (xmdLoop H _ _) Prod.snd
+      (fun j s t => s.2 = t ∧ t.length = j + 1 ∧ t[j]? = some s.1) _ _ ?_ ?_ _ _ _ ⟨rfl, rfl, rfl⟩
+    · intro j s t h; obtain ⟨rfl, _⟩ := h; rfl
+    · intro k j s t h; obtain ⟨rfl, hl, hp⟩ := h
+      simp only [xmdLoop, Nat.add_sub_cancel_left, hp, Option.getD_some]
+      cases i2osp (2 + j) 1 with
+      | error e => exact Or.inl ⟨_, rfl, rfl⟩
+      | ok ib => exact Or.inr ⟨_, _, rfl, rfl, rfl, by simp [hl], by simp [← hl]⟩
 
 /-! ### `py_ecc/bls/hash_to_curve.py` (field half) -/
 
 theorem hash_to_field_L : blsconst_HASH_TO_FIELD_L = 64 := by decide
 
+/-- `x[L * k : L * (k + 1)]` has length `L`: the spellings `x[o : o + L]` and `x[L * k : L * (k + 1)]` of a slice agree. -/
+theorem slice_len (L k : Nat) : L * (k + 1) - L * k = L := by
+  rw [Nat.mul_succ, Nat.add_sub_cancel_left]
+
+theorem range_two : List.range 2 = [0, 1] := by decide
+
 /-- `hash_to_field_FQ(message, count, DST, hash_function)` as translated from the source (`len_in_bytes = count * 1 * L`, the call of
-    `expand_message_xmd`, the `range(0, count)` loop appending `FQ(os2ip(prb[off : off + L]) % field_modulus)` with
+    `expand_message_xmd`, the `range(count)` loop — or comprehension — collecting `FQ(os2ip(prb[off : off + L]) % field_modulus)` with
     `off = L * (i * 1)`) is the model's `hashToFieldFq` at the module's `field_modulus`, each reduced integer wrapped in `FQ`. -/
 theorem hash_to_field_FQ_eq (H : HashFn) (msg : Bytes) (count : Nat) (dst : Bytes) :
     Gen.ExtraHash.hash_to_field_FQ msg count dst H
@@ -130,14 +217,8 @@ theorem hash_to_field_FQ_eq (H : HashFn) (msg : Bytes) (count : Nat) (dst : Byte
   | ok prb =>
     show Except.ok _ = Except.ok _
     congr 1
-    have : Gen.ExtraHash.hash_to_field_FQ_loop0 1 prb
-        = fun (u : List F1) i => u ++ [(fun i => f1c ((PyEcc.os2ip ((prb.drop (64 * (i * 1))).take 64) % blsP : Nat) : Int)) i] := by
-      funext u i
-      unfold Gen.ExtraHash.hash_to_field_FQ_loop0
-      simp only [hash_to_field_L]
-      rfl
-    rw [this, foldl_append_singleton]
-    simp [List.map_map, Function.comp_def]
+    simp only [foldl_append_singleton, List.nil_append, slice_len, List.map_map, Function.comp_def]
+    rfl
 
 theorem ofInts_pair_reduced (a b : Nat) :
     (Fqp.ofInts (List.map Int.ofNat [a % blsP, b % blsP]) : F2) = f2c [((a % blsP : Nat) : Int), ((b % blsP : Nat) : Int)] := by
@@ -146,10 +227,15 @@ theorem ofInts_pair_reduced (a b : Nat) :
   simp only [List.map_cons, List.map_nil, Int.ofNat_eq_natCast]
   rw [Int.natCast_emod, Int.natCast_emod, Int.emod_emod, Int.emod_emod]
 
+theorem ofInts_pair_reduced' (a b : Nat) :
+    (Fqp.ofInts [Int.ofNat (a % blsP), Int.ofNat (b % blsP)] : F2) = f2c [((a % blsP : Nat) : Int), ((b % blsP : Nat) : Int)] :=
+  ofInts_pair_reduced a b
+
 /-- `hash_to_field_FQ2(message, count, DST, hash_function)` as translated from the source (`len_in_bytes = count * 2 * L`, the call
-    of `expand_message_xmd`, the nested `range(0, count)` / `range(0, 2)` loops collecting `os2ip(prb[off : off + L]) % field_modulus`
-    with `off = L * (j + i * 2)`, `FQ2(e)` on the two collected integers — whose length check never fails) is the model's
-    `hashToFieldFq2` at the module's `field_modulus`, each pair of reduced integers wrapped in `FQ2`. -/
+    of `expand_message_xmd`, the `range(count)` loop whose body collects — by an inner `range(2)` loop of `append`s or by a
+    comprehension — the two integers `os2ip(prb[off : off + L]) % field_modulus` with `off = L * (j + i * 2)`, `FQ2(e)` on the two
+    collected integers — whose length check never fails) is the model's `hashToFieldFq2` at the module's `field_modulus`, each pair
+    of reduced integers wrapped in `FQ2`. -/
 theorem hash_to_field_FQ2_eq (H : HashFn) (msg : Bytes) (count : Nat) (dst : Bytes) :
     Gen.ExtraHash.hash_to_field_FQ2 msg count dst H
       = (List.map (fun (u : Nat × Nat) => f2c [u.1, u.2])) <$> hashToFieldFq2 H blsP msg count dst := by
@@ -158,22 +244,30 @@ theorem hash_to_field_FQ2_eq (H : HashFn) (msg : Bytes) (count : Nat) (dst : Byt
   cases expandMessageXmd H msg dst (count * 2 * 64) with
   | error e => rfl
   | ok prb =>
-    have : Gen.ExtraHash.hash_to_field_FQ2_loop1 2 prb
-        = fun (u : List F2) i => (pure (u ++ [(fun i =>
-            f2c [((PyEcc.os2ip ((prb.drop (64 * (0 + i * 2))).take 64) % blsP : Nat) : Int),
-                 ((PyEcc.os2ip ((prb.drop (64 * (1 + i * 2))).take 64) % blsP : Nat) : Int)]) i]) : Except PyErr (List F2)) := by
-      funext u i
-      unfold Gen.ExtraHash.hash_to_field_FQ2_loop1
-      have h2 : List.range 2 = [0, 1] := by decide
-      simp only [h2, List.foldl_cons, List.foldl_nil]
-      unfold Gen.ExtraHash.hash_to_field_FQ2_loop0
-      simp only [hash_to_field_L, List.nil_append, List.cons_append, List.length_cons, List.length_nil, if_true,
-        ofInts_pair_reduced]
-      rfl
-    show (do let u ← List.foldlM (Gen.ExtraHash.hash_to_field_FQ2_loop1 2 prb) [] (List.range count); pure u) = _
-    rw [this, foldlM_ok (fun (u : List F2) i => u ++ [_]), foldl_append_singleton]
-    show Except.ok _ = Except.ok _
-    congr 1
-    simp [List.map_map, Function.comp_def]
+    first
+    | -- the outer loop is a `for` loop of `append`s
+      show List.foldlM (m := Except PyErr) _ _ _ = _
+      rw [foldlM_append_of_step _ (fun i =>
+              f2c [((PyEcc.os2ip ((prb.drop (64 * (0 + i * 2))).take 64) % blsP : Nat) : Int),
+                   ((PyEcc.os2ip ((prb.drop (64 * (1 + i * 2))).take 64) % blsP : Nat) : Int)])]
+      · show Except.ok _ = Except.ok _
+        congr 1
+        simp [List.map_map, Function.comp_def]
+      · intro u i
+        simp only [range_two, List.foldl_cons, List.foldl_nil, List.map_cons, List.map_nil, slice_len,
+          List.nil_append, List.cons_append, List.length_cons, List.length_nil, if_true, ofInts_pair_reduced,
+          ofInts_pair_reduced', pure_bind]
+    | -- the outer loop is a comprehension
+      show List.mapM (m := Except PyErr) _ _ = _
+      rw [mapM_of_step _ (fun i =>
+              f2c [((PyEcc.os2ip ((prb.drop (64 * (0 + i * 2))).take 64) % blsP : Nat) : Int),
+                   ((PyEcc.os2ip ((prb.drop (64 * (1 + i * 2))).take 64) % blsP : Nat) : Int)])]
+      · show Except.ok _ = Except.ok _
+        congr 1
+        simp [List.map_map, Function.comp_def]
+      · intro i
+        simp only [range_two, List.foldl_cons, List.foldl_nil, List.map_cons, List.map_nil, slice_len,
+          List.nil_append, List.cons_append, List.length_cons, List.length_nil, if_true, ofInts_pair_reduced,
+          ofInts_pair_reduced', pure_bind]
 
 end PyEcc.Tie
